@@ -62,16 +62,20 @@ class Tokenizer:
             self._tokens.append(tok)
         return self._tokens[self._index]
 
-    def _record_lines(self, tok: TokenInfo) -> None:
-        """Remember the source line(s) a token lies on, for error reports."""
+    @staticmethod
+    def _physical_lines(tok: TokenInfo) -> list[tuple[int, str]]:
+        """(line number, text) of every physical line a token lies on."""
         lnum = tok.start[0]
         if tok.end[0] > lnum and tok.type != Token.MACRO_PARAM:
             # multi-line token: ``tok.line`` holds all of its physical lines
             *full, last = tok.line.split("\n")
-            for i, line in enumerate([ln + "\n" for ln in full] + ([last] if last else [])):
-                self._lines.setdefault(lnum + i, line)
-        elif lnum not in self._lines:
-            self._lines[lnum] = tok.line
+            return list(enumerate([ln + "\n" for ln in full] + ([last] if last else []), lnum))
+        return [(lnum, tok.line)]
+
+    def _record_lines(self, tok: TokenInfo) -> None:
+        """Remember the source line(s) a token lies on, for error reports."""
+        for lnum, line in self._physical_lines(tok):
+            self._lines.setdefault(lnum, line)
 
     def is_blank(self, tok: TokenInfo) -> bool:
         if self._proc_macro and tok.type == Token.WS:
@@ -167,9 +171,10 @@ class Tokenizer:
                     # empty new line added by the tokenizer
                     continue
 
-            # update captured lines
-            if tok.start[0] not in lines:
-                lines[tok.start[0]] = tok.line if is_indented else tok.line[tok.start[1] :]
+            # update captured lines (a multi-line string contributes each of its physical lines once)
+            for lnum, line in self._physical_lines(tok):
+                if lnum not in lines:
+                    lines[lnum] = line if is_indented or lnum != tok.start[0] else line[tok.start[1] :]
 
         string = "".join(lines.values())
         if is_indented:
